@@ -228,3 +228,11 @@ TEXT["C11"]["note"] += (" Known finding (tied to its clause): NaN / Infinity arg
 TEXT["C17"]["level"] += (" A stored partition is proved to record its WHOLE stored index, so it can be the merge parent of a later one (chains of any length, D13 repaired); a partition read back from the store "
                          "and returned again is stored with all of its keys, inherited ones included (D21, repaired).")
 TEXT["C19"]["note"] += (" NullStorageBackend.list_mementos is proved to return an empty list (D22, repaired).")
+# ---- audit round 2
+TEXT["C02"]["note"] += " from_exception is proved total also when the exception's own __str__ raises (str() of a user object is modelled as user code -- D26, repaired)."
+TEXT["C04"]["level"] += " Every value that is presented is in the binding or the call is refused: a keyword naming a positionally filled parameter raises (D30, repaired)."
+TEXT["C06"]["level"] += " A look-up served from the cache (get_mementos) counts as a use: the last key hit is the most recent entry afterwards (D27, repaired)."
+TEXT["C12"]["note"] += " The look-up of a stored name imports user modules and may raise anything: from_qualified_name is proved to fall back to an external reference whatever it raises (D29, repaired)."
+TEXT["C13"]["level"] += (" A rule whose symbol no longer resolves, or resolves to another memento function, reports a change instead of raising or staying silent (D25, D28, repaired); the cached exit of "
+                         "_update_dependencies is only open to an object that holds its own validated rules (D32, repaired).")
+TEXT["C18"]["level"] += " FilesystemStorageBackend.to_dict is proved to carry the codec options of the storage configuration (D31, repaired)."
